@@ -356,3 +356,47 @@ Proof.
     + lia.
     + eapply Forall_impl; [|exact Hf]. cbn. intros. unfold max_overdue. lia.
 Qed.
+
+(* ---- never ahead of the configured profile ---- *)
+Lemma due_by_paired : forall toks ats x, Forall2 Z.le toks ats -> (due_by x ats <= due_by x toks)%nat.
+Proof.
+  intros toks ats x H. unfold due_by. induction H as [|t a tl al Hle _ IH]; cbn [filter length]; [lia|].
+  destruct (a <=? x) eqn:Ea.
+  - apply Z.leb_le in Ea. assert (E : t <=? x = true) by (apply Z.leb_le; lia). rewrite E. cbn [length]. lia.
+  - destruct (t <=? x); cbn [length]; lia.
+Qed.
+
+Lemma due_by_perm : forall x l l', Permutation l l' -> due_by x l = due_by x l'.
+Proof.
+  intros x l l' H. unfold due_by. induction H; cbn [filter]; auto.
+  - destruct (x0 <=? x); cbn [length]; auto.
+  - destruct (y <=? x), (x0 <=? x); reflexivity.
+  - congruence.
+Qed.
+
+(* whatever the hand-out: if every shot is at or after the time of the token it consumed, the run
+   is never ahead of the profile *)
+Lemma paired_never_ahead : forall toks toks' ats,
+  Permutation toks' toks -> Forall2 Z.le toks' ats -> never_ahead_b toks ats = true.
+Proof.
+  intros toks toks' ats Hp H. unfold never_ahead_b. apply forallb_forall. intros x _.
+  apply Nat.leb_le. rewrite <- (due_by_perm x _ _ Hp). apply due_by_paired. exact H.
+Qed.
+
+Lemma shots_paired : forall v d (l : list (nat * shot)),
+  Forall (fun ks => shot_ok v d (snd ks)) l ->
+  Forall2 Z.le (map (fun ks => s_tok (snd ks)) l) (map (fun ks => s_entry (snd ks)) l).
+Proof.
+  intros v d l H. induction H as [|ks r Hk _ IH]; cbn [map]; constructor; [|exact IH].
+  destruct Hk as [Hk _]. exact Hk.
+Qed.
+
+(* the pool model is never ahead of its profile *)
+Lemma run_pool_never_ahead : forall v p starts offs durs,
+  Forall (Forall (fun x => 0 <= x)) durs ->
+  never_ahead_b (map (fun ks : nat * shot => s_tok (snd ks)) (run_pool v p starts offs durs))
+                (map (fun ks : nat * shot => s_entry (snd ks)) (run_pool v p starts offs durs)) = true.
+Proof.
+  intros. eapply paired_never_ahead; [apply Permutation_refl|].
+  eapply shots_paired. apply run_pool_ok. assumption.
+Qed.
